@@ -396,3 +396,64 @@ def functions(mi: int):
                    yatiml.dump_function(*classes),
                    yatiml.dump_json_function(*classes))
     return _FN[mi]
+
+
+# ---------------------------------------------------------------------------
+# two factors at a time (thorough tier): models whose factors are keyword
+# arguments of a builder can be combined
+
+def _opt(**kw):
+    return Opt(1, **kw)
+
+
+COMBINE = {
+    'doc': (_doc, [
+        ('a', [{'a': i} for i in INTS]),
+        ('b', [{'b': s} for s in STRS]),
+        ('c', [{'c': f} for f in FLOATS]),
+        ('d', [{'d': True}, {'d': False}]),
+        ('e', [{'e': Sub(3)}, {'e': Sub(-1)}]),
+    ]),
+    'styled': (_styled, [
+        ('col', [{'col': c} for c in Color]),
+        ('name', [{'name': Ident(s)} for s in STRS[:12]]),
+        ('u', [{'u': UStr(s)} for s in STRS[:40]]),
+        ('v', [{'v': Ver('1.2')}]),
+        ('cols', [{'cols': [Color.true, Color.yes, Color.null]}]),
+        ('by', [{'by': {Ident(s): 1, Ident('k'): 2}} for s in STRS[:12]]),
+        ('bu', [{'bu': {UStr(s): s}} for s in STRS[:12]]),
+        ('c2', [{'c2': c} for c in Color2]),
+    ]),
+    'opt': (_opt, [
+        ('b', [{'b': 5}, {'b': 0}, {'b': None}]),
+        ('c', [{'c': 7}, {'c': 'blue'}, {'c': '7'}, {'c': 0}, {'c': 'red'}]),
+        ('d', [{'d': 2.5}, {'d': 1.0}, {'d': 1.5}]),
+        ('e', [{'e': True}, {'e': False}]),
+        ('s', [{'s': ''}, {'s': '1.5'}, {'s': 'null'}, {'s': 'dflt'}]),
+        ('l', [{'l': [1]}, {'l': []}]),
+    ]),
+}
+COMBINE_MODELS = [MODEL_IDX[n] for n in COMBINE]
+
+
+def value2(mi: int, f1: int, x1: int, f2: int, x2: int):
+    """Two factors of model mi changed at once (f1 < f2), or None."""
+    name = MODELS[mi][0]
+    if name not in COMBINE:
+        return None
+    build, factors = COMBINE[name]
+    if not f1 < f2 < len(factors):
+        return None
+    a1 = pick([fa[1] for fa in factors], f1)
+    a2 = pick([fa[1] for fa in factors], f2)
+    if x1 >= len(a1) or x2 >= len(a2):
+        return None
+    kw = dict(pick(a1, x1))
+    kw.update(pick(a2, x2))
+    return build(**kw)
+
+
+def combine_slices():
+    """slice = model index * 16 + first factor."""
+    return [mi * 16 + f for mi in COMBINE_MODELS
+            for f in range(len(COMBINE[MODELS[mi][0]][1]) - 1)]
